@@ -1,6 +1,6 @@
 use crate::analysis::AvailableValue;
 use crate::cfg::Cfg;
-use crate::parser::{HasIdentity, HasRegisterSets, Register};
+use crate::parser::{HasIdentity, HasRegisterSets, RawToken, Register};
 use crate::passes::{DiagnosticManager, LintError, LintPass};
 use itertools::Itertools;
 
@@ -8,6 +8,10 @@ use itertools::Itertools;
 pub struct CalleeSavedRegisterCheck;
 impl LintPass for CalleeSavedRegisterCheck {
     fn run(cfg: &Cfg, errors: &mut DiagnosticManager) {
+        // Functions that overlap find the same stores from their shared return:
+        // every store is reported once (the tokens are compared by their place
+        // in the source, not by the register they name)
+        let mut reported: Vec<RawToken> = Vec::new();
         // `functions()` maps every label to its function: visit each function once
         for func in cfg.functions().values().unique_by(|func| func.id()) {
             let exit_vals = func.exit().reg_values_in();
@@ -26,7 +30,10 @@ impl LintPass for CalleeSavedRegisterCheck {
                         // from the return point that that register was overwritten.
                         let ranges = Cfg::error_ranges_for_first_store(&func.exit(), reg);
                         for range in ranges {
-                            errors.push(LintError::OverwriteCalleeSavedRegister(range));
+                            if !reported.contains(range.raw_token()) {
+                                reported.push(range.raw_token().clone());
+                                errors.push(LintError::OverwriteCalleeSavedRegister(range));
+                            }
                         }
                     }
                 }
